@@ -27,9 +27,9 @@ vars == <<st, prog, nxt, ev, ok, out, eresp>>
 Ids        == 0..K
 RespKinds  == {"BindResp-ok", "BindResp-sasl", "BindResp-bad", "Entry", "Ref", "Done", "ExtResp"}
 ReqKinds   == {"BindReq", "SearchReq", "ExtReq"}
-OtherKinds == {"Unbind", "Notice", "garbage"}
-ClientCalls == {"bind_simple", "bind_sasl", "search", "ext", "unbind"}
-ServerCalls == {"bind_response-ok", "bind_response-sasl", "bind_response-bad", "ext_response", "notice", "entry", "ref", "done"}
+OtherKinds == {"Unbind", "Notice", "garbage", "DelReq", "IntermResp"}   \* the last two: well-formed PDUs of operations the library does not implement
+ClientCalls == {"bind_simple", "bind_sasl", "search", "ext", "ext_tls", "unbind"}   \* ext_tls: an extended operation known by name (StartTLS)
+ServerCalls == {"bind_response-ok", "bind_response-sasl", "bind_response-bad", "ext_response", "ext_response-tls", "notice", "entry", "ref", "done"}
 BindCalls  == {"bind_simple", "bind_sasl", "bind_response-ok", "bind_response-sasl", "bind_response-bad"}
 FinalBind  == {"bind_response-ok", "bind_response-bad", "BindResp-ok", "BindResp-bad"}
 Idle       == [i \in 1..(K + 1) |-> "none"]
@@ -39,10 +39,10 @@ Busy       == \E i \in Ids : P(i) # "none"
 OutOfCall(name) ==
     CASE name \in {"bind_simple", "bind_sasl"} -> "BindReq"
       [] name = "search" -> "SearchReq"
-      [] name = "ext" -> "ExtReq"
+      [] name \in {"ext", "ext_tls"} -> "ExtReq"
       [] name = "unbind" -> "Unbind"
       [] name \in {"bind_response-ok", "bind_response-sasl", "bind_response-bad"} -> "BindResp"
-      [] name = "ext_response" -> "ExtResp"
+      [] name \in {"ext_response", "ext_response-tls"} -> "ExtResp"
       [] name = "notice" -> "Notice"
       [] name = "entry" -> "Entry"
       [] name = "ref" -> "Ref"
@@ -87,8 +87,9 @@ ClientRecv(kind, i) ==
     LET e == <<"recv", kind, i>> IN
     IF st = "CLOSED" THEN RefusedDelivery(e)
     ELSE IF kind \in {"Unbind", "Notice"} THEN Closes(e, "none")
-    ELSE IF kind \in ReqKinds \cup {"garbage"} THEN Closes(e, "Unbind")
+    ELSE IF kind \in ReqKinds \cup {"garbage", "DelReq"} THEN Closes(e, "Unbind")
     ELSE IF P(i) = "none" THEN Closes(e, "Unbind")
+    ELSE IF kind = "IntermResp" THEN FALSE          \* for an operation in progress: not specified
     ELSE IF P(i) = "search" THEN
         /\ kind \in {"Entry", "Ref", "Done"}          \* anything else: the properties are silent
         /\ Accepted(e, st, IF kind = "Done" THEN [prog EXCEPT ![i + 1] = "none"] ELSE prog, nxt, "none")
@@ -110,7 +111,8 @@ ServerRecv(kind, i) ==
     LET e == <<"recv", kind, i>> IN
     IF st = "CLOSED" THEN RefusedDelivery(e)
     ELSE IF kind = "Unbind" THEN Closes(e, "none")
-    ELSE IF kind \in RespKinds \cup {"Notice", "garbage"} THEN Closes(e, "Notice")
+    ELSE IF kind = "DelReq" THEN FALSE              \* a request the library does not implement: refused today, not specified
+    ELSE IF kind \in RespKinds \cup {"Notice", "garbage", "IntermResp"} THEN Closes(e, "Notice")
     ELSE IF kind = "BindReq" THEN
         IF Busy THEN Closes(e, "Notice")
         ELSE Accepted(e, "BINDING", [prog EXCEPT ![i + 1] = "req"], nxt, "none")
@@ -167,12 +169,12 @@ ReceiveErrorCloses == [][IsRecv => (ok' <=> st' # "CLOSED")]_vars
 IdsIncrease == [][(Role = "client" /\ IsCall /\ ok' /\ ev'[2] # "unbind") => (nxt' = nxt + 1 /\ nxt >= 1 /\ P(nxt) = "none" /\ prog'[nxt + 1] # "none")]_vars
 IdsNeverGoBack == [][nxt' >= nxt]_vars
 \* C09: a response is accepted iff its id belongs to an operation still in progress
-AcceptedIffInProgress == [][(Role = "client" /\ IsRecv /\ ev'[2] \in RespKinds /\ st # "CLOSED") => (ok' <=> P(ev'[3]) # "none")]_vars
+AcceptedIffInProgress == [][(Role = "client" /\ IsRecv /\ ev'[2] \in RespKinds \cup {"IntermResp"} /\ st # "CLOSED") => (ok' <=> P(ev'[3]) # "none")]_vars
 \* C09: a search stays in progress until its done message; every other operation completes on its first response
 SearchStays == [][(Role = "client" /\ IsRecv /\ ok' /\ P(ev'[3]) = "search") => (prog'[ev'[3] + 1] = IF ev'[2] = "Done" THEN "none" ELSE "search")]_vars
 OthersCompleteOnFirst == [][(Role = "client" /\ IsRecv /\ ok' /\ P(ev'[3]) \in {"bind", "ext"}) => prog'[ev'[3] + 1] = "none"]_vars
 \* C09: request-type messages close the session
-RequestsCloseClient == [][(Role = "client" /\ IsRecv /\ ev'[2] \in ReqKinds \cup {"Unbind"}) => (~ok' /\ st' = "CLOSED")]_vars
+RequestsCloseClient == [][(Role = "client" /\ IsRecv /\ ev'[2] \in ReqKinds \cup {"Unbind", "DelReq"}) => (~ok' /\ st' = "CLOSED")]_vars
 \* C10: a server emits a response only for a request that is currently outstanding
 OnlyOutstandingAnswered == [][(Role = "server" /\ IsCall /\ ev'[2] # "unbind" /\ ok') => P(ev'[3]) # "none"]_vars
 \* C10: a final response retires the request, an entry or reference does not
